@@ -1,8 +1,19 @@
 #!/usr/bin/env python3
 """Regenerates MANIFEST.json from manifest_src.json (per-property texts) — keeps the file valid at all times."""
-import json, sys
+import json, re, sys
 from pathlib import Path
 V = Path(__file__).resolve().parent
+
+
+def n_theorems(pid):
+    """number of theorems in the property file (same rule as harness.common.theorem_names)"""
+    f = V / "lean" / "Proofs" / "Props" / f"{pid}.lean"
+    if not f.exists():
+        return None
+    return sum(1 for line in f.read_text().splitlines()
+               if re.match(r"^(?:@\[[^\]]*\]\s*)?(?:private\s+|protected\s+)?theorem\s+(\S+)", line))
+
+
 src = json.loads((V / "manifest_src.json").read_text())
 props = [json.loads(l) for l in (V / "properties.jsonl").read_text().splitlines() if l.strip()]
 checks, na = [], []
@@ -17,7 +28,7 @@ for p in props:
             "evidence_file": f"evidence/{pid}.json",
             "replay_cmd_template": f"/venv/bin/python check.py --property {pid} --replay {{path}}",
             "engine": "lean-model+correspondence",
-            "level_claimed": {"category": "proof", "text": e["text"], "design_ref": e.get("design_ref", f"DESIGN.md §5 {pid}")},
+            "level_claimed": {"category": "proof", "text": re.sub(r"^\d+ theorems", f"{n_theorems(pid)} theorems", e["text"]) if n_theorems(pid) else e["text"], "design_ref": e.get("design_ref", f"DESIGN.md §5 {pid}")},
             "level_note": e["note"],
             "technique": e.get("technique", "Lean 4 theorems over a hand-written model + high-precision correspondence check against the real code"),
         })
